@@ -39,16 +39,19 @@ CHECKS = {
              'parse_message of the reference text: to_er7() must equal the reference encoding, to_mllp() must frame it, '
              'encoding_chars must read back on the message and on every descendant, and parse_message(to_er7()) must recover the '
              'set. Every single-defect set (each key missing, each pair of roles equal incl. truncation, non-dict, malformed '
-             'MSH-2) must raise InvalidEncodingChars at three entry points.',
+             'MSH-2) must raise InvalidEncodingChars at three entry points, as the first thing the process sees and again after '
+             'the valid sets it derives from have been used; the reference text with a Z segment and with a standard segment the '
+             'structure does not list must re-encode identically with group finding on and off.',
         note='trusted: reference encoder/escaper; pool excludes characters that occur in the recipe content'),
     'C09': dict(
         engine=E2, design_ref='DESIGN.md section 7 C09, section 3.2',
         technique='explicit-state breadth-first search over API histories of real objects (rebuild-by-replay, canonical '
                   'object-graph hashing), every transition compared with a reference list model',
         text='From 9 roots (Segment empty / parsed / STRICT / Z / varies-ended, Field, flat Message TOLERANT and STRICT, Group) '
-             'all histories up to depth 3 (thorough 4) over an alphabet of ~64 operations (set by name / lower case / long name / '
+             'all histories up to depth 3 (thorough 4) over an alphabet of ~68 operations (set by name / lower case / long name / '
              'element, proxy[i]=, children[i]=, add, add_<child> helper, del, del proxy[i], remove, pop, copy from a donor by '
-             'proxy and by element, donor mutations) are explored after canonical state merging (~15,000 states, ~109,000 '
+             'proxy and by element, donor mutations, reads and a refused write through the proxy of a child - which leave temporary '
+             'traversal children behind) are explored after canonical state merging (~16,000 states, ~125,000 '
              'transitions in quick); after each accepted transition the per-name repetition texts, the children order and the '
              'ER7 encoding of root and donor must equal those of an insertion-ordered list of (name, text) entries.',
         note='trusted: the list model (100 lines), reference encoder; 3 child names and 2 values per root; canonical key drops only the proxy memo'),
@@ -59,7 +62,8 @@ CHECKS = {
         text='Two pools (TOLERANT, STRICT) of message, group, 3 segments, 4 fields (one of the other level, one of another '
              'version), 2 components and a subcomponent; 94 operations (add / parent= / children.append / assignment / '
              'children[0]= over 20 ordered pairs, parent=None, traversal reads and writes, deletions, helpers, value '
-             'assignment), all histories to depth 3 (thorough 4): ~12,000 states, ~125,000 transitions. In every state: each '
+             'assignment), all histories to depth 3 (thorough 4) from the separate objects and to depth 2 (3) from an assembled '
+             'tree whose children have been looked up by name: ~18,800 states, ~187,000 transitions. In every state: each '
              'listed child reports its lister as parent, no element is listed by two parents or twice, iteration / len / in / [] '
              '/ named lookup agree, one version and one level per tree.',
         note='trusted: the invariant evaluator (public observers only); rejected calls are transitions too'),
@@ -68,8 +72,10 @@ CHECKS = {
         technique='explicit-state breadth-first search over read/write histories (chains of depth 1-4 by name, long name and '
                   'positional path x observers) on real objects, plus an exhaustive read-then-write sweep over every leaf path of '
                   'the segments of a version; oracle: before/after equality for reads, reference encoding + "new nodes form one path" for writes',
-        text='9 roots (empty and parsed Message, STRICT Message, empty / parsed / STRICT Segment, Z-segment, empty and parsed '
-             'Field); ~60 operations per root (13 chains x 2 observers: len+iteration+repr+empty slice+bool in one, and the chain walked twice; root '
+        text='12 roots (empty and parsed Message, STRICT Message, empty / parsed / STRICT Segment, Z-segment, empty and parsed '
+             'Field, and Message / Segment / Field whose first children were created through the add_* helpers); ~70 operations per '
+             'root (13 chains x 3 observers: len+iteration+repr+empty slice+bool in one, the chain walked twice, and the element at '
+             'the end dereferenced through .value / .to_er7() / .children; root '
              'to_er7 / validate / children; writes by assignment, .value and datatype object at the end of each chain); all '
              'histories to depth 3 (thorough 4). A read must leave encoding, recursive listing and validation report identical; '
              'a write must produce the reference encoding of old content + value at that position and the newly listed elements '
@@ -80,12 +86,13 @@ CHECKS = {
         engine=E2, design_ref='DESIGN.md section 7 C12',
         technique='explicit-state breadth-first search: every state reachable by set/add/delete/copy histories x every rejecting '
                   'operation; before/after equality of the complete public observation on every transition that raises',
-        text='9 roots (Segment TOLERANT/STRICT and inside a Message, Field T/S, flat Message T/S, Group T/S); building alphabet of '
-             '16 operations plus ~35 rejecting operations (wrong class, wrong / foreign / unknown name, other validation level or '
+        text='11 roots (Segment TOLERANT/STRICT and inside a Message, empty STRICT Segment and Group, Field T/S, flat Message T/S, '
+             'Group T/S); building alphabet of 16 operations plus ~45 rejecting operations (wrong class, wrong / foreign / unknown name, other validation level or '
              'version by add / assignment / indexed assignment, cardinality overflow, invalid and over-long values under STRICT, '
              'absent child or index deletion, foreign remove, datatype change on a populated element, value text of another '
-             'segment / message, value whose children are refused midway); all histories to depth 3 (thorough 4): ~5,000 states, '
-             '~40,000 transitions. Whenever a call raises, encoding, recursive listing (class, name, datatype, text per node) and '
+             'segment / message, value whose children are refused midway, a datatype object the child refuses, a child that already '
+             'belongs to an element of another level / version offered by add and by parent=, a STRICT move beyond the maximum); '
+             'all histories to depth 3 (thorough 4): ~8,900 states, ~85,000 transitions. Whenever a call raises, encoding, recursive listing (class, name, datatype, text per node) and '
              'per-name repetitions of target, donor and ancestor must be unchanged and the C10 invariants must hold.',
         note='trusted: public observers; exception classes are not judged here'),
     'C13': dict(
@@ -106,7 +113,8 @@ CHECKS = {
         text='For every segment of 2.5 and 2.7 and every third segment of the other versions (thorough: all 1,657) every field, '
              'component and subcomponent is written through each spelling and read back through every other spelling: the proxy '
              'must hold exactly the element written (identity) with the written value; after a delete through one spelling every '
-             'other spelling must be empty. ~3.4 million (write spelling, read spelling) pairs in quick. Per parent, names that '
+             'other spelling must be empty; the only child of every base-datatype field of every segment of every version is '
+             'addressed by datatype name (three cases) and by position. ~3.4 million (write spelling, read spelling) pairs in quick. Per parent, names that '
              'designate no child (a child of another parent, index past the last, index 99, malformed paths) must raise '
              'ChildNotFound / ChildNotValid for get, set and delete and leave the parent unchanged.',
         note='trusted: the tables as definition of names; 251 long names excluded (duplicated in the parent or equal to an attribute of the element class)'),
@@ -117,7 +125,9 @@ CHECKS = {
         text='Per version: truncation at every byte, deletion and duplication of every delimiter occurrence, every MSH-2 length '
              '0-6 x header field count 2-13, 150 MSH-9 x MSH-12 combinations, every segment id replaced by 9 alternatives, blank '
              'lines at every position, CRLF / LF, plus all strings up to length 4 (thorough 5) over {M S H | ^ ~ \\ & CR 2 . 5 A} '
-             'after 3 prefixes (~99,000 distinct inputs x 2 levels). Every outcome must be a value, an HL7apyException or (STRICT) a '
+             'after 3 prefixes (~99,000 distinct inputs x 2 levels); a second seed with nested and sibling groups (ORU_R01) with every '
+             'segment id replaced by 8 alternatives, 6 lines inserted once and twice at every position, every line deleted, every '
+             'pair of lines swapped; ordered pairs of texts whose delimiter sets differ in one character, each pair in a fresh process. Every outcome must be a value, an HL7apyException or (STRICT) a '
              'ValueError; every returned message must encode and must return a validation report.',
         note='trusted: traceback inspection for the finding key only'),
     'C16': dict(
@@ -127,10 +137,12 @@ CHECKS = {
                   'exploration (preemption bound 2) of 2-3 simultaneous connections; oracle: independent MLLP reference; socket '
                   'model validated against real loopback TCP',
         text='The real MLLPRequestHandler, driven by the real MLLPServer.process_request_thread over an in-memory socket, is run '
-             'on 14 payload kinds (registered / unregistered / non-HL7 / empty / no start block / garbage before it / bytes or a '
-             'second frame after the end block / undecodable / EB without CR / blank line / UTF-8 / no final CR) for every prefix '
+             'on 22 payload kinds (registered / unregistered / non-HL7 / empty / no start block / garbage before it / bytes or a '
+             'second frame after the end block / undecodable / EB without CR / blank line / UTF-8 / no final CR, and 8 routing kinds: '
+             'MSH-9 a string prefix of a registered key, longer than one, empty, absent, lower case) for every prefix '
              'length of the frame (client stall or early close at every byte), every cut of that prefix into at most 3 (4) '
-             'arrivals, and with and without an ERR handler (~700,000 scripts); 2 and 3 simultaneous connections run as threads '
+             'arrivals (2 for the routing kinds), and with and without an ERR handler (~845,000 scripts); the scripted socket takes at most 5 bytes '
+             'per send() call (short write) and everything per sendall(); 2 and 3 simultaneous connections run as threads '
              'under the baton scheduler with choice points at every library line and socket operation (all schedules with <=2, '
              'resp. <=1, preemptions). Handler class, text, arguments, reply bytes, exactly-once and closing are compared with a '
              'reference written from the statement; to_mllp() framing is checked for every version; 16 scripts are replayed '
@@ -156,10 +168,12 @@ CHECKS = {
         text='All structures of 2.5 and every third structure of the other versions (thorough: all): the identity profile must leave '
              'building through the API, parsing and validation identical to the no-profile run; each single edit at each child of the '
              'message and of its groups (~13,800 edited profiles in quick) must show in validate() of the profile run only (error '
-             'naming the child) and in STRICT construction (the forbidden child is refused). For every segment of 2.5 (thorough: all '
+             'naming the child) and in STRICT construction (the forbidden child is refused); for an optional child made required inside '
+             'nested groups a text with every group on the path twice is parsed with the profile: every instance lacking the child '
+             'is reported, by the message and by each group instance validated on its own. For every segment of 2.5 (thorough: all '
              'versions) each ST/NM/ID/IS/SI leaf field gets its datatype swapped in the profile; the child created by traversal '
-             'read, traversal write, add_* helpers, parse_message(message_profile=) and text assignment must carry the profile '
-             'datatype, and a STRICT parse must refuse a value only valid for the standard datatype. Shipped ITI-21 profile, a '
+             'read, traversal write, add_* helpers, parse_message(message_profile=), text assignment and assignment of an element '
+             'copied from a message built without the profile must carry the profile datatype, and a STRICT parse must refuse a value only valid for the standard datatype. Shipped ITI-21 profile, a '
              'profile lacking the structure (MessageProfileNotFound) and the legacy files (LegacyMessageProfile) are checked.',
         note='trusted: profile synthesiser (same tuple shape as the shipped profile); children listed twice in a structure (D12) are blocked'),
     'C19': dict(
@@ -167,10 +181,11 @@ CHECKS = {
         technique='stateless model checking of the implementation: real threads under a baton scheduler with a choice point '
                   'before every library line (sys.monitoring), iterative preemption bounding, result equality with the sequential run '
                   'plus a frame-condition audit of all process-wide library state',
-        text='136 two- and three-thread harnesses over a corpus of 17 factory / build / parse / encode / validate bodies '
+        text='171 two- and three-thread harnesses over a corpus of 20 factory / build / parse / encode / validate bodies (incl. fields '
+             'beyond the table of Z and varies-ended segments, and a highlights list shared by the callers) '
              '(forced collision on one version, and mixed version/level variants) are executed under every schedule with at '
              'most 2 preemptions (small x small), 1 preemption (small/medium x medium, 3 threads) and both serial orders '
-             '(large bodies) in the quick tier, ~360,000 complete executions; thorough raises the bounds (3 / 1 at bytecode '
+             '(large bodies) in the quick tier, ~470,000 complete executions; thorough raises the bounds (3 / 1 at bytecode '
              'granularity in the shared-state functions / 1 for large bodies at shared-touching lines). Every thread must observe '
              'exactly what the same call observes alone, and the fingerprint of every module global, module-level container and '
              'class-level data attribute of the library (and a digest of the tables) must be unchanged after every execution.',
@@ -184,7 +199,8 @@ CHECKS = {
              'Z-segment, a segment foreign to the structure, a duplicate of the neighbour and a garbled id (Q9Q); for 3 (thorough '
              '20) structures per version all words up to length 3 (4) over {3 in-structure names, a foreign name, ZZZ} are appended '
              'to MSH; one line per level carries an element beyond the defined count (fields, components, subcomponents, '
-             'components / subcomponents inside base-datatype fields, repetitions beyond the maximum). Each text (~33,000 in quick) '
+             'components / subcomponents inside base-datatype fields, repetitions beyond the maximum) and a field of datatype varies holds '
+             'components, subcomponents and repetitions with empty ones before valued ones. Each text (~33,000 in quick) '
              'is parsed with find_groups on and off: either an HL7apyException surfaces or the encoded result has the same segment '
              'names in the same order and the same non-empty leaves per segment; both settings must agree.',
         note='trusted: reference decoder; instance generator reads the tables; structures with anomalous rows are blocked (82)'),
@@ -205,11 +221,15 @@ CHECKS = {
                   'unnamed element, datatype override) through the real validator; purity / determinism / report-form oracles',
         text='For every concrete message structure (~1,970; identity message profile as reference for 2.5 and 2.7, thorough: all) '
              'and every segment definition (1,657; thorough also every complex datatype) the conforming required-only instance '
-             'must validate, and each single-point mutation at every child site (~47,500 validated elements in quick) must fail '
+             'must validate, and each single-point mutation at every child site (~74,000 validated elements in quick; incl. two '
+             'components in every base-datatype field and two subcomponents in a base-datatype component) must fail '
              'with an error text naming the mutated child (its parent for unnamed elements). On every conforming and one mutated '
              'instance per structure: encoding and recursive listing unchanged by validate(), two calls report equally, is_valid '
              '== (errors == []), the raising form raises exactly errors[0] (type and text) or returns True, and the report '
-             'written to a file object and to a path consists exactly of the Error:/Warning: lines of the returned lists.',
+             'written to a file object and to a path consists exactly of the Error:/Warning: lines of the returned lists. Z segments '
+             'holding conforming fields of two or three different complex datatypes (adjacent pairs of the datatype list in both '
+             'orders; thorough: all ordered pairs), alone and inside a conforming message, must validate, and must name the '
+             'component when one required component is left out.',
         note='trusted: conforming-instance builder (tables), error-text matching by child name; 33 known findings (D12: structures listing one segment twice)'),
     'C05': dict(
         engine='E1 grid + E2 hist', design_ref='DESIGN.md section 7 C05',
@@ -220,10 +240,11 @@ CHECKS = {
              'typed literal, with the invalid literal of its datatype, with a value one character over the maximum length, and the '
              'all-leaves shape (also inside a host message) are parsed under STRICT and TOLERANT (~230,000 texts): whatever STRICT '
              'accepts TOLERANT accepts with the same encoding and validation report, the validator finds nothing but missing '
-             'required children on it, and STRICT refuses every invalid and over-long value. Five twin roots (Segment parsed and '
-             'empty, Field, Message, Group) are driven in lock step through 27 operations to depth 2 (thorough 3), including the '
-             'six kinds STRICT must refuse (cardinality overflow, foreign child, unnamed child, datatype override, invalid value, '
-             'over-long value).',
+             'required children on it, and STRICT refuses every invalid and over-long value - also when TOLERANT has processed the '
+             'same text before in the same process. Five twin roots (Segment parsed and '
+             'empty, Field, Message, Group) are driven in lock step through 31 operations to depth 2 (thorough 3), including the '
+             'seven kinds STRICT must refuse (cardinality overflow, foreign child, unnamed child, datatype override, datatype '
+             'cleared then overridden, invalid value, over-long value) and writes through traversal proxies kept from earlier.',
         note='trusted: differential oracle only; 8 known findings (D13: STRICT groups encode in structure order)'),
     'C06': dict(
         engine=E1, design_ref='DESIGN.md section 7 C06',
@@ -236,7 +257,10 @@ CHECKS = {
              'to a punctuation pool with regex-special members; each output is tokenized left to right by an independent '
              'reference (no raw delimiter, no lone escape), re-encoded (idempotence), and compared with the input when '
              'the input is already escaped; end to end, every string <= 3 is assigned as a datatype object at field, '
-             'component and subcomponent level of a message with custom delimiters and the separator counts are compared. '
+             'component and subcomponent level of a message with custom delimiters and the separator counts are compared, and '
+             'the same segment on its own, encoded with the set passed explicitly to to_er7(), must give the same text. Ordered '
+             'units (fresh process each): every class after every other class, and each class under its delimiter sets in every '
+             'order with strings over the union of their alphabets. '
              'Complete within the bounds; says nothing about longer strings or other characters.',
         note='trusted: CPython re/str; reference tokenizer (40 lines); alphabet represents the 8 escape letters by E F H L'),
 }
